@@ -16,7 +16,9 @@ import tempfile
 import zipfile
 
 from vf.core import HarnessError, Prop, Violation
-from vf.props.c29 import _budget, _seed, focused_cases
+from hypothesis import strategies as st
+
+from vf.props.c29 import _budget, _seed, draw_cases, focused_cases
 
 prop = Prop(
     "C34",
@@ -138,6 +140,8 @@ def _leaves(v, files_sha: dict, acc: list) -> None:
             _leaves(x, files_sha, acc)
     elif isinstance(v, dict) and v.get("class") == "File":
         acc.append(("f", files_sha(v)))
+    elif isinstance(v, dict) and v.get("class") == "Directory":
+        acc.append(("d", files_sha(v)))  # sorted sha1 of every regular file below the directory
     elif isinstance(v, dict):
         acc.append(("r", v))
     else:
@@ -160,6 +164,22 @@ def _entity_leaves(e: dict, by_id: dict) -> list | None:
     ts = _types(e)
     if "File" in ts:
         return [("f", e.get("sha1", e["@id"]))]
+    if "Dataset" in ts:
+        shas: list = []
+
+        def parts(x, seen):
+            for p in x.get("hasPart", []) if isinstance(x.get("hasPart"), list) else []:
+                t = by_id.get(p.get("@id"))
+                if t is None or t["@id"] in seen:
+                    continue
+                seen.add(t["@id"])
+                if "File" in _types(t):
+                    shas.append(t.get("sha1", t["@id"]))
+                elif "Dataset" in _types(t):
+                    parts(t, seen)
+
+        parts(e, {e["@id"]})
+        return [("d", sorted(shas))]
     if "PropertyValue" not in ts:
         return None
     val = e.get("value")
@@ -186,8 +206,8 @@ def _leaves_match(found: list, expected: list, by_id: dict) -> bool:
     if len(found) != len(expected):
         return False
     for (fk, fv), (ek, ev) in zip(found, expected):
-        if ek == "f":
-            if fk != "f" or fv != ev:
+        if ek in ("f", "d"):
+            if fk != ek or fv != ev:
                 return False
         elif ek == "s":
             if fk != "s" or not _scalar_matches(fv, ev):
@@ -267,7 +287,7 @@ def check_values(meta: dict, wf_file: str, which: str, values: dict, files_sha) 
 
 def _has_file(o) -> bool:
     if isinstance(o, dict):
-        return o.get("class") == "File" or any(_has_file(v) for v in o.values())
+        return o.get("class") in ("File", "Directory") or any(_has_file(v) for v in o.values())
     if isinstance(o, list):
         return any(_has_file(v) for v in o)
     return False
@@ -328,9 +348,69 @@ def _outputs_from_inputs(doc) -> bool:
     return walk(doc)
 
 
+def export_and_check(case, rec, root, paths, sf, job, archive_name: str, steps: int) -> int:
+    """`streamflow prov wf` on the database of `paths`, then the whole oracle against `job` and `sf.output`.
+    Returns the number of values checked; raises Violation."""
+    from vf.cwlgen import normalise, run
+
+    pr = run.run_prov(paths, root, "wf", archive_name, os.path.join(root, "prov"))
+    archive = os.path.join(root, "prov", archive_name)
+    if pr.rc != 0 or not os.path.exists(archive):
+        rec.nontrivial(steps >= 2 and (_has_file(job) or _has_file(sf.output)))
+        kind = f"C34:export-fails:{pr.error_type()}"
+        if pr.error_type() == "KeyError" and "_get_source" in pr.stderr and _outputs_from_inputs(case["doc"]):
+            kind = "C34:export-fails:output-from-workflow-input"
+        elif pr.error_type() == "KeyError" and "_process_file_token" in pr.stderr and "contents" in json.dumps(case["doc"]):
+            kind = "C34:export-fails:file-literal-without-checksum"
+        raise Violation(kind, "streamflow prov failed on a completed run:\n" + run._strip_ansi(pr.stderr)[-1500:])
+    try:
+        with zipfile.ZipFile(archive) as z:
+            names = z.namelist()
+            files = [n for n in names if not n.endswith("/")]  # (directory entries may repeat: harmless)
+            if len(set(files)) != len(files):
+                raise Violation("C34:duplicate-archive-members", f"{sorted(n for n in files if files.count(n) > 1)[:5]}")
+            members = {n: z.read(n) for n in names}
+    except zipfile.BadZipFile as e:
+        raise Violation("C34:archive-not-a-zip", str(e))
+    if "ro-crate-metadata.json" not in members:
+        raise Violation("C34:metadata-missing", f"members: {sorted(members)[:10]}")
+    try:
+        meta = json.loads(members["ro-crate-metadata.json"].decode("utf-8"))
+    except ValueError as e:
+        raise Violation("C34:metadata-not-json", str(e))
+    check_structure(meta, members)
+
+    def job_sha(v):
+        if v.get("class") == "Directory":
+            prefix = v["path"].rstrip("/") + "/"
+            return sorted(hashlib.sha1(c.encode("utf-8")).hexdigest() for n, c in case["files"].items() if n.startswith(prefix))
+        return hashlib.sha1(case["files"][v["path"]].encode("utf-8")).hexdigest()
+
+    def out_sha(v):
+        if v.get("class") == "Directory":
+            path = normalise._local_path(v)
+            if path is None or not os.path.isdir(path):
+                raise HarnessError(f"output directory of the run not found: {v}")
+            out = []
+            for d, _, fs in os.walk(path):
+                for f in fs:
+                    with open(os.path.join(d, f), "rb") as fh:
+                        out.append(hashlib.sha1(fh.read()).hexdigest())
+            return sorted(out)
+        issues: list = []
+        nv = normalise.normalise(v, issues)
+        if "sha1" not in nv:
+            raise HarnessError(f"output file of the run not found: {v}")
+        return nv["sha1"]
+
+    n_in = check_values(meta, "wf.cwl", "input", dict(job), job_sha)
+    n_out = check_values(meta, "wf.cwl", "output", sf.output, out_sha)
+    return n_in + n_out
+
+
 @prop.enumerated("export", gen_runs, exhaustive=False)
 def check_export(case, rec):
-    from vf.cwlgen import features, normalise, run, writer
+    from vf.cwlgen import features, run, writer
 
     m = features.measure(case)
     rec.label(*sorted("feat:" + f for f in m["features"] if not f.startswith("step-default")))
@@ -342,50 +422,153 @@ def check_export(case, rec):
             rec.label("run-not-completed")  # C29's business; nothing to export
             return
         rec.label("run-completed")
-        pr = run.run_prov(paths, root, "wf", "wf.crate.zip", os.path.join(root, "prov"))
-        archive = os.path.join(root, "prov", "wf.crate.zip")
-        if pr.rc != 0 or not os.path.exists(archive):
-            rec.nontrivial(m["steps"] >= 2 and (_has_file(case["job"]) or _has_file(sf.output)))
-            kind = f"C34:export-fails:{pr.error_type()}"
-            if pr.error_type() == "KeyError" and "_get_source" in pr.stderr and _outputs_from_inputs(case["doc"]):
-                kind = "C34:export-fails:output-from-workflow-input"
-            elif pr.error_type() == "KeyError" and "_process_file_token" in pr.stderr and "contents" in json.dumps(case["doc"]):
-                kind = "C34:export-fails:file-literal-without-checksum"
-            raise Violation(kind,
-                            "streamflow prov failed on a completed run:\n" + run._strip_ansi(pr.stderr)[-1500:])
-        try:
-            with zipfile.ZipFile(archive) as z:
-                names = z.namelist()
-                if len(set(names)) != len(names):
-                    raise Violation("C34:duplicate-archive-members", f"{sorted(n for n in names if names.count(n) > 1)[:5]}")
-                members = {n: z.read(n) for n in names}
-        except zipfile.BadZipFile as e:
-            raise Violation("C34:archive-not-a-zip", str(e))
-        if "ro-crate-metadata.json" not in members:
-            raise Violation("C34:metadata-missing", f"members: {sorted(members)[:10]}")
-        try:
-            meta = json.loads(members["ro-crate-metadata.json"].decode("utf-8"))
-        except ValueError as e:
-            raise Violation("C34:metadata-not-json", str(e))
-        check_structure(meta, members)
-
-        def job_sha(v):
-            return hashlib.sha1(case["files"][v["path"]].encode("utf-8")).hexdigest()
-
-        def out_sha(v):
-            issues: list = []
-            nv = normalise.normalise(v, issues)
-            if "sha1" not in nv:
-                raise HarnessError(f"output file of the run not found: {v}")
-            return nv["sha1"]
-
-        inputs = {k: v for k, v in case["job"].items()}
-        n_in = check_values(meta, "wf.cwl", "input", inputs, job_sha)
-        n_out = check_values(meta, "wf.cwl", "output", sf.output, out_sha)
+        n = export_and_check(case, rec, root, paths, sf, case["job"], "wf.crate.zip", m["steps"])
         has_file = _has_file(case["job"]) or _has_file(sf.output)
         rec.label("file-input" if _has_file(case["job"]) else "no-file-input",
                   "file-output" if _has_file(sf.output) else "no-file-output",
-                  f"values-checked:{min(n_in + n_out, 8)}" + ("+" if n_in + n_out >= 8 else ""))
+                  f"values-checked:{min(n, 8)}" + ("+" if n >= 8 else ""))
+        if any(isinstance(v, dict) and v.get("class") == "Directory" for v in list(case["job"].values()) + list(sf.output.values())):
+            rec.label("directory-value")
         rec.nontrivial(m["steps"] >= 2 and has_file)
     finally:
         shutil.rmtree(root, ignore_errors=True)
+
+
+# ------------------------------------------------------------------------------------------------
+# the same workflow name run twice in one database: `prov NAME` (without --all) exports the LATEST run
+
+
+def _vary(v, files: dict):
+    """a different value of the same type and shape (array lengths kept: dotproduct scatters stay valid)"""
+    if isinstance(v, bool):
+        return not v
+    if isinstance(v, int):
+        return v + 1 if v < 900 else v - 1
+    if isinstance(v, float):
+        return v + 0.5
+    if isinstance(v, str):
+        return v + "2"
+    if isinstance(v, list):
+        return [_vary(x, files) for x in v]
+    if isinstance(v, dict) and v.get("class") == "File":
+        name = "r2_" + v["path"]
+        files[name] = "second run\n" + files[v["path"]]
+        return {"class": "File", "path": name}
+    if isinstance(v, dict):
+        return {k: _vary(x, files) for k, x in v.items()}
+    return v
+
+
+def gen_reruns(tier):
+    from vf.cwlgen import gen
+
+    n = _budget(6 if tier == "quick" else 100)
+
+    def make(focus=None):
+        return gen.workflow_cases(focus=focus, file_bias=0.7, allow_fail=False, max_steps=3, passthrough=False,
+                                  with_file_input=True, file_literals=False)
+
+    for case in focused_cases(make, ["files", "valueFrom", None], n, _seed() + 341000):
+        files = dict(case["files"])
+        job2 = {k: _vary(v, files) for k, v in case["job"].items()}
+        for name, decl in case["doc"]["inputs"].items():
+            if name not in job2 and decl.get("default") is not None and not isinstance(decl["default"], dict):
+                job2[name] = _vary(decl["default"], files)  # run 2 overrides what run 1 took from the default
+        yield {"doc": case["doc"], "job": case["job"], "job2": job2, "files": files}
+
+
+@prop.enumerated("rerun-same-name", gen_reruns, exhaustive=False)
+def check_rerun(case, rec):
+    from vf.cwlgen import features, run, writer
+
+    m = features.measure(case)
+    root = tempfile.mkdtemp(prefix="vf-c34-")
+    try:
+        paths = writer.materialise(case, root, sf_database=os.path.join(root, "sf.sqlite"))
+        job2_path = os.path.join(root, "job2.json")
+        with open(job2_path, "w", encoding="utf-8") as f:
+            json.dump(case["job2"], f, indent=1, ensure_ascii=False)
+        sf1 = run.run_streamflow(paths, root, tag="sf-run1")
+        if not sf1.ok:
+            rec.label("run-not-completed")
+            return
+        n1 = export_and_check(case, rec, root, paths, sf1, case["job"], "run1.crate.zip", m["steps"])
+        sf2 = run.run_streamflow(dict(paths, job=job2_path), root, tag="sf-run2")
+        if not sf2.ok:
+            rec.label("second-run-not-completed")
+            rec.nontrivial(False)
+            return
+        rec.label("two-runs-completed")
+        try:
+            n2 = export_and_check(case, rec, root, paths, sf2, case["job2"], "run2.crate.zip", m["steps"])
+        except Violation as v:
+            if v.kind.endswith("-value-not-represented"):
+                raise Violation("C34:rerun:" + v.kind.split(":", 1)[1],
+                                "after a SECOND run of the same workflow name in the same database, `prov` (latest "
+                                "execution) does not represent that run: " + v.message)
+            raise
+        rec.label(f"values-checked:{min(n1 + n2, 12)}" + ("+" if n1 + n2 >= 12 else ""))
+        rec.nontrivial(json.dumps(case["job"], sort_keys=True) != json.dumps(case["job2"], sort_keys=True))
+    finally:
+        shutil.rmtree(root, ignore_errors=True)
+
+
+# ------------------------------------------------------------------------------------------------
+# Directory inputs and outputs: several regular files per folder, nested folders
+
+_NAMES = ["a.txt", "b.txt", "data.csv", "x y.txt", "Zed", "k_1.log", "n0", "é.txt"]
+_SUBS = ["sub", "deep dir", "s2", "more"]
+
+
+@st.composite
+def directory_cases(draw):
+    from vf.cwlgen.gen import G, TOP_REQS
+
+    g = G(draw)
+    files: dict = {}
+    uniq = [0]
+
+    def fill(prefix, k):
+        for name in g.rnd.sample(_NAMES, k):
+            uniq[0] += 1
+            files[f"{prefix}/{name}"] = g.pick(["", "one line\n", "l1\nl2\n", "no newline", "x" * 200]) + f"#{uniq[0]}\n"
+
+    fill("dir0", g.i(2, 4))
+    for sub in g.rnd.sample(_SUBS, g.i(1, 2)):
+        fill(f"dir0/{sub}", g.i(2, 3))
+        if g.p(0.3):
+            fill(f"dir0/{sub}/inner", g.i(1, 2))
+    extra = g.rnd.sample(["extra.txt", "new1", "new 2.txt", "z.out"], g.i(2, 3))
+    script = "mkdir out && cp -r \"$0\"/. out/ && mkdir out/made && " + " && ".join(
+        f"echo made{i}-$1 > 'out/{n}' && echo sub{i}-$1 > 'out/made/{n}'" for i, n in enumerate(extra))
+    mk = {"class": "CommandLineTool", "baseCommand": ["sh", "-c", script],
+          "inputs": {"d": {"type": "Directory", "inputBinding": {"position": 1}},
+                     "a": {"type": "int", "inputBinding": {"position": 2}}},
+          "outputs": {"o": {"type": "Directory", "outputBinding": {"glob": "out"}}}}
+    count = {"class": "CommandLineTool", "baseCommand": ["sh", "-c", "ls \"$0\"/ | wc -l"],
+             "inputs": {"d": {"type": "Directory", "inputBinding": {"position": 1}}}, "stdout": "n.txt",
+             "outputs": {"n": {"type": "int", "outputBinding": {"glob": "n.txt", "loadContents": True,
+                                                                 "outputEval": "$(parseInt(self[0].contents))"}}}}
+    steps = {"m": {"run": mk, "in": {"d": {"source": "d"}, "a": {"source": "a"}}, "out": ["o"]}}
+    outputs = {"o": {"type": "Directory", "outputSource": "m/o"}}
+    if g.p(0.7):
+        steps["c"] = {"run": count, "in": {"d": {"source": "m/o" if g.p(0.5) else "d"}}, "out": ["n"]}
+        outputs["n"] = {"type": "int", "outputSource": "c/n"}
+    doc = {"cwlVersion": "v1.2", "class": "Workflow", "requirements": dict(TOP_REQS),
+           "inputs": {"d": {"type": "Directory"}, "a": {"type": "int"}}, "outputs": outputs, "steps": steps}
+    return {"doc": doc, "job": {"d": {"class": "Directory", "path": "dir0"}, "a": g.i(0, 99)}, "files": files}
+
+
+def gen_directories(tier):
+    yield from draw_cases(directory_cases(), _budget(4 if tier == "quick" else 60), _seed() + 342000)
+
+
+@prop.enumerated("directories", gen_directories, exhaustive=False)
+def check_directories(case, rec):
+    per_dir: dict = {}
+    for name in case["files"]:
+        per_dir[os.path.dirname(name)] = per_dir.get(os.path.dirname(name), 0) + 1
+    rec.label(f"folders:{len(per_dir)}", f"max-files-per-folder:{max(per_dir.values())}",
+              "nested" if any(d.count("/") >= 1 for d in per_dir) else "flat")
+    check_export(case, rec)
+    rec.nontrivial(rec.is_nontrivial or max(per_dir.values()) >= 2)
